@@ -27,8 +27,11 @@ Any other answer is a *deviation* (cost 1).  All executions with at most
 """
 from __future__ import annotations
 
-from .core import HarnessError, h64
+from . import core
+from .core import ExecutionTimeout, HarnessError, h64
 from .vloop import VLoop
+
+PROP = "C??"   # set by the harness; names the property in the 'does not terminate' signature
 
 RUN = "<run>"
 CLOCK = "<clock>"
@@ -52,6 +55,9 @@ def run_one(factory, case, prefix, max_passes=2000, seen=None, bound=None):
     """Run one execution following `prefix` [(labels, idx)] then defaults."""
     loop = VLoop().hold()
     ex = Execution()
+    scen = None
+    guard = core.deadline(core.EXEC_BUDGET_S)
+    guard.__enter__()
     try:
         scen = factory(case, loop)
         pi = 0
@@ -135,15 +141,26 @@ def run_one(factory, case, prefix, max_passes=2000, seen=None, bound=None):
             ex.obs = scen.final()
         ex.problems = list(scen.problems)
         scen.close()
+    except ExecutionTimeout as e:
+        # the code under test looped without returning to the event loop: a violation of
+        # whatever liveness the property promises, and never a reason to hang the check
+        ex.capped = True
+        ex.problems = (list(scen.problems) if scen is not None else []) + [
+            (f"{PROP}:execution-does-not-terminate", f"one execution did not finish: {e}; last events {ex.trace[-6:]}")]
     finally:
-        loop.finish()
+        guard.__exit__(None, None, None)
+        try:
+            with core.deadline(20):
+                loop.finish()
+        except ExecutionTimeout:
+            loop.release()
     return ex
 
 
 def explore(factory, case, bound, max_execs=200000, max_passes=2000, prune=False, on_exec=None):
     """Enumerate every execution with <= bound deviations. Returns stats dict."""
     stats = {"executions": 0, "passes": 0, "choice_points": 0, "capped": 0, "pruned": 0,
-             "max_points": 0, "truncated": False}
+             "max_points": 0, "truncated": False, "hung": False}
     seen = {} if prune else None
     stack = [[]]
     while stack:
@@ -157,6 +174,11 @@ def explore(factory, case, bound, max_execs=200000, max_passes=2000, prune=False
         stats["pruned"] += ex.pruned
         if on_exec is not None:
             on_exec(ex)
+        if any(sig.endswith(":execution-does-not-terminate") for sig, _m in ex.problems):
+            # every further schedule of this scenario would cost a full budget: the violation is recorded, stop here
+            stats["truncated"] = True
+            stats["hung"] = True
+            break
         if stats["executions"] >= max_execs:
             stats["truncated"] = bool(stack)
             break
